@@ -1,9 +1,66 @@
 (* C04 — Domain complementarity: involutive, unique, always of equal length.
-   Only property theorems: each is closed by `exact` and followed by Print Assumptions. *)
+   Only property theorems: each is closed by `exact` and followed by Print Assumptions.
+   The model: Model/Registry.v (DomainS.identifiers with its nested constructor calls,
+   __init__, complement, dtype; arbitrary class table = arbitrary class constants). *)
 From Coq Require Import List NArith ZArith.
 From DSD Require Import Base.Str Base.Errors Model.ComplexUtils Model.RegStr Model.Heap Model.Registry
-  Proofs.RegistryBasic.
+  Proofs.RegistryBasic Proofs.RegHeap Proofs.RegInv Proofs.RegCalls Proofs.RegExt Proofs.RegC04 Proofs.RegStep
+  Proofs.RegC04b Proofs.RegExamples.
 Import ListNotations.
+
+(* CompOK: x and x* (x unstarred) live in one class have equal lengths.  It holds initially ... *)
+Theorem C04_CompOK_init : forall ct n, Good ct (init ct n).
+Proof. exact good_init. Qed.
+Print Assumptions C04_CompOK_init.
+
+(* ... is preserved by EVERY step of EVERY operation on EVERY class (any order of creation, look-up,
+   complement, drop), for arbitrary class constants different from 0 and explicit lengths different from 0
+   (Good = registry invariant + collected + CompOK + no zero length + kinds) ... *)
+Theorem C04_CompOK_step : forall ct st o,
+  consts_nonzero ct -> op_guard o -> Good ct st -> Good ct (fst (step ct st o)).
+Proof. exact good_step. Qed.
+Print Assumptions C04_CompOK_step.
+
+(* ... hence holds in every reachable state *)
+Theorem C04_CompOK_reachable : forall ct n ops,
+  consts_nonzero ct -> Forall op_guard ops -> Good ct (run ct (init ct n) ops).
+Proof. exact good_reachable. Qed.
+Print Assumptions C04_CompOK_reachable.
+
+(* the two guards cannot be dropped: the faithful model refutes the unguarded statements
+   (both witnesses replay on the implementation) *)
+Theorem C04_CompOK_refuted_for_zero_length : exists ops, ~ CompOK (run ctD (init ctD 2) ops).
+Proof. exact CompOK_refuted_for_zero_length. Qed.
+Print Assumptions C04_CompOK_refuted_for_zero_length.
+
+Theorem C04_CompOK_refuted_for_double_star :
+  exists ops, Forall op_guard ops /\ ~ CompOK_any_base (run ctD (init ctD 2) ops).
+Proof. exact CompOK_refuted_for_double_star. Qed.
+Print Assumptions C04_CompOK_refuted_for_double_star.
+
+(* ~d: what it returns has the toggled name, d's length and d's class *)
+Theorem C04_invert_spec : forall ct st i ob l o b,
+  Good ct st -> live_obj (heap st) i ob -> o_data ob = DDom l ->
+  snd (dom_complement ct st i) = CRet o b ->
+  exists oo, live_obj (heap (fst (dom_complement ct st i))) o oo /\
+             o_cls oo = o_cls ob /\ o_name oo = cname_of (o_name ob) /\ o_data oo = DDom l.
+Proof. exact invert_spec. Qed.
+Print Assumptions C04_invert_spec.
+
+(* ~~d is d *)
+Theorem C04_invert_involutive : forall ct st i ob l o oo o2 b2,
+  Good ct st -> live_obj (heap st) i ob -> o_data ob = DDom l -> base_unstarred (o_name ob) ->
+  live_obj (heap st) o oo -> o_cls oo = o_cls ob -> o_name oo = cname_of (o_name ob) -> o_data oo = DDom l ->
+  snd (dom_complement ct st o) = CRet o2 b2 -> o2 = i.
+Proof. exact invert_involutive. Qed.
+Print Assumptions C04_invert_involutive.
+
+(* the complement is unique: one live object per name in a class *)
+Theorem C04_complement_unique : forall ct st i j oi oj,
+  Inv ct st -> live_obj (heap st) i oi -> live_obj (heap st) j oj ->
+  o_cls oi = o_cls oj -> o_name oi = o_name oj -> i = j /\ oi = oj.
+Proof. exact uniq_name. Qed.
+Print Assumptions C04_complement_unique.
 
 (* d.dtype is 'short' exactly when the length is at most the class cutoff (any class constants) *)
 Theorem C04_dtype_short_iff : forall ct h o l ci,
